@@ -984,6 +984,81 @@ def gen_recycle_cached(rng):
     return ctx.text()
 
 
+def gen_counter(rng):
+    """the counter array driven directly: counts pushed across 255/256 and
+    65535/65536 (widening), brought back (the counts_09bit / counts_17bit
+    bookkeeping), resizes in between (narrowing happens in expand and in
+    shrink), several large counters at once"""
+    L = ["ctr new C"]
+    size = rng.randint(2, 6)
+    L.append("ctr exp C %d" % size)
+    val = [0] * size
+
+    def inc(i, k):
+        L.append("ctr inc C %d %d" % (i, k)); val[i] += k
+
+    def dec(i, k):
+        k = min(k, val[i])
+        if k > 0:
+            L.append("ctr dec C %d %d" % (i, k)); val[i] -= k
+
+    marks = [255, 256, 257, 65535, 65536, 65537, 300, 70000, 1, 10]
+
+    def resize():
+        n = size_ref[0] + rng.randint(1, 3)
+        L.append("ctr exp C %d" % n)
+        val.extend([0] * (n - size_ref[0]))
+        size_ref[0] = n
+
+    size_ref = [size]
+    for step in range(rng.randint(10, 40)):
+        size = size_ref[0]
+        r = rng.random()
+        if r < 0.12 and size >= 2:
+            # one counter stays large while another one crosses a widening threshold and
+            # comes back; then a resize re-decides the element width
+            a, b = rng.sample(range(size), 2)
+            lo, hi = rng.choice([(256, 65536), (256, 65536), (300, 70000), (256, 300), (65536, 65537)])
+            if val[a] < lo:
+                inc(a, lo - val[a])
+            if val[b] < hi:
+                inc(b, hi - val[b])
+            dec(b, val[b] - rng.choice([0, 1, 200, 255]))
+            resize()
+            if rng.random() < 0.5:
+                dec(a, val[a] - rng.choice([0, 255, 256]))
+                resize()
+            continue
+        if r < 0.45:
+            i = rng.randrange(size)
+            tgt = rng.choice(marks)
+            if tgt > val[i]:
+                inc(i, tgt - val[i])
+            else:
+                inc(i, rng.choice([1, 2, 3]))
+        elif r < 0.8:
+            i = rng.randrange(size)
+            tgt = rng.choice([0, 1, 254, 255, 256, 65535, 65536, 200])
+            if tgt < val[i]:
+                dec(i, val[i] - tgt)
+            else:
+                dec(i, rng.choice([1, 2]))
+        elif r < 0.92:
+            resize()
+        else:
+            # drop the unused tail
+            keep = size
+            while keep > 1 and val[keep - 1] == 0:
+                keep -= 1
+            keep = rng.randint(keep, size)
+            if keep < size:
+                L.append("ctr shr C %d" % keep)
+                del val[keep:]
+                size_ref[0] = keep
+    L.append("ctr del C")
+    return "\n".join(L) + "\n"
+
+
 def gen_C06_nodes(rng, nops=None):
     """node-level histories on a quasi-reduced forest with pessimistic deletion:
     nodes created through unpacked nodes (duplicates found in the unique table,
